@@ -44,6 +44,7 @@ def body(case, env):
         first_lines = [l for l in p2.out.splitlines() if l and not l.startswith(('Pass ', 'e2fsck ')) and 'WARNING' not in l][:6]
         targets = corrupt.areas(desc)
         if 'quota' in ' '.join(fsgen.config_by_name(case['cfg'])['features']): targets = targets + ['cfg:quota']
+        if 'bigalloc' in ' '.join(fsgen.config_by_name(case['cfg'])['features']): targets = targets + ['cfg:bigalloc']
         obs = dict(kind='not-converged', cfg=case['cfg'], areas=targets, rc1=p1.rc, rc2=p2.rc, second_codes=codes2, first_fixed=sorted(set(fixed))[:30], second_run_says=first_lines, applied=desc)
         return (obs, fp, True, None, classes)
     nontrivial = bool(p1.rc & 1 or fixed)
